@@ -146,7 +146,69 @@ SmallInit ==
   \/ \E k \in NoFieldKinds : d = [kind |-> k]
   \/ \E k \in FieldKinds \ {"UtlsPaddingExtension"} : \E f \in FieldSet(k) : d = [kind |-> k, f |-> f]
   \/ \E f \in FieldSet("UtlsPaddingExtension") : \E s \in PadStyles : d = [kind |-> "UtlsPaddingExtension", f |-> f, style |-> s.style, padto |-> s.padto]
-Init == IF Boundary THEN \E i \in DOMAIN BoundaryDescs : d = BoundaryDescs[i] ELSE SmallInit
+\* ---------- carry boundaries: nested length prefixes around the first byte carries ----------
+\* For every encoding that nests a length-prefixed vector inside another length (outer = inner + k), element
+\* sizes are chosen so that the INNER total is 253..257 and 509..513 (= 253, 254, 255, 0, 1 mod 256): an encoder
+\* that derives the outer length from the bytes of the inner one (or forgets a carry) disagrees with Len() there.
+\* u8-prefixed vectors (outer <= 258) get their own top sizes.  All values stay within the RFC limits.
+Carry == (253..257) \cup (509..513)
+RECURSIVE ProtosOfTotal(_)
+\* protocol names whose list encoding (1 + length each) is exactly t bytes, every name 1..255 bytes
+ProtosOfTotal(t) == IF t <= 256 THEN <<XRep(t - 1, 97)>>
+                    ELSE IF t = 257 THEN <<XRep(254, 97), <<98>>>>
+                    ELSE <<XRep(255, 99)>> \o ProtosOfTotal(t - 256)
+SigKinds == {"SignatureAlgorithmsExtension", "SignatureAlgorithmsCertExtension", "FakeDelegatedCredentialsExtension"}
+CarryInit ==
+  \* key_share: client_shares total = 4 + len(data) per share; one share, a GREASE share plus a real one, a hybrid-sized pair
+  \/ \E t \in Carry : d = D("KeyShareExtension", [KeyShares |-> <<[Group |-> IF t % 2 = 0 THEN 29 ELSE 6682, Data |-> XRep(t - 4, SB)]>>])
+  \/ \E t \in Carry : d = D("KeyShareExtension", [KeyShares |-> <<[Group |-> 2570, Data |-> <<0>>], [Group |-> 29, Data |-> XRep(t - 9, 3)]>>])
+  \/ \E t \in 1277..1281 : d = D("KeyShareExtension", [KeyShares |-> <<[Group |-> 25497, Data |-> XRep(1216, 5)], [Group |-> 29, Data |-> XRep(t - 1224, 6)]>>])
+  \* ALPN / ALPS: protocol_name_list total
+  \/ \E t \in Carry : d = D("ALPNExtension", [AlpnProtocols |-> ProtosOfTotal(t)])
+  \/ \E t \in Carry : d = D("ApplicationSettingsExtension", [SupportedProtocols |-> ProtosOfTotal(t)])
+  \/ \E t \in Carry : d = D("ApplicationSettingsExtensionNew", [SupportedProtocols |-> ProtosOfTotal(t)])
+  \* server_name: host_name length h, server_name_list = h + 3, extension_data = h + 5
+  \/ \E h \in (248..257) \cup (504..513) : d = D("SNIExtension", [ServerName |-> XRep(h, 97)])
+  \* u16 lists of u16 values: list = 2n, extension_data = 2n + 2
+  \/ \E n \in {126, 127, 128, 254, 255, 256} :
+       \/ d = D("SupportedCurvesExtension", [Curves |-> XRep(n, 29)])
+       \/ \E k \in SigKinds : d = D(k, [SupportedSignatureAlgorithms |-> XRep(n, 1027)])
+  \* u8-prefixed vectors: extension_data = 1 + n (+2 for token binding)
+  \/ \E n \in {253, 254, 255} :
+       \/ d = D("SupportedPointsExtension", [SupportedPoints |-> XRep(n, 1)])
+       \/ d = D("PSKKeyExchangeModesExtension", [Modes |-> XRep(n, 1)])
+       \/ d = D("RenegotiationInfoExtension", [Renegotiation |-> 1, RenegotiatedConnection |-> XRep(n, SB)])
+       \/ d = D("FakeTokenBindingExtension", [MajorVersion |-> 1, MinorVersion |-> 0, KeyParameters |-> XRep(n - 2, 2)])
+  \/ \E n \in {125, 126, 127} :
+       \/ d = D("SupportedVersionsExtension", [Versions |-> XRep(n, 772)])
+       \/ d = D("UtlsCompressCertExtension", [Algorithms |-> XRep(n, 2)])
+  \* cookie: cookie length c, extension_data = c + 2
+  \/ \E c \in Carry : d = D("CookieExtension", [Cookie |-> XRep(c, SB)])
+  \* pre_shared_key: identities total = label + 6 (t), and the whole extension_data = t + 37 with one 32-byte binder
+  \/ \E t \in Carry \cup (216..220) \cup (472..476) :
+       d = D("FakePreSharedKeyExtension", [Identities |-> <<[Label |-> XRep(t - 6, 7), ObfuscatedTicketAge |-> <<1, 2, 3, 4>>]>>,
+                                           Binders |-> <<XRep(32, 9)>>, OmitEmptyPsk |-> FALSE])
+  \/ \E t \in Carry : d = D("FakePreSharedKeyExtension",
+                            [Identities |-> <<[Label |-> XRep(t - 15, 7), ObfuscatedTicketAge |-> <<0, 0, 0, 1>>], [Label |-> <<1, 2, 3>>, ObfuscatedTicketAge |-> <<0, 0, 0, 2>>]>>,
+                             Binders |-> <<XRep(48, 9), XRep(32, 8)>>, OmitEmptyPsk |-> FALSE])
+  \* QUIC transport parameters: varint length prefix switches width at 64; extension_data = 3 + v for v >= 64
+  \/ \E v \in {62, 63, 64, 65} \cup (250..254) \cup (506..510) :
+       d = D("QUICTransportParametersExtension", [TransportParameters |-> <<[kind |-> "PaddingTransportParameter", v |-> XRep(v, 0)]>>])
+  \/ \E v \in (244..248) \cup (500..504) :
+       d = D("QUICTransportParametersExtension", [TransportParameters |-> <<[kind |-> "MaxIdleTimeout", v |-> B8(30000)],
+                                                                            [kind |-> "InitialSourceConnectionID", v |-> XRep(v, SB)]>>])
+  \* GREASE ECH: enc length e, payload p + 16, extension_data = e + p + 26
+  \/ \E e \in Carry \cup (99..103) \cup (355..359) : d = D("GREASEEncryptedClientHelloExtension", [CandidateCipherSuites |-> <<[KdfId |-> 1, AeadId |-> 1]>>, CandidateConfigIds |-> <<>>,
+                                                                                  EncapsulatedKey |-> XRep(e, SB), CandidatePayloadLens |-> <<128>>])
+  \/ \E p \in (237..241) \cup (493..497) : d = D("GREASEEncryptedClientHelloExtension", [CandidateCipherSuites |-> <<>>, CandidateConfigIds |-> <<>>,
+                                                                                        EncapsulatedKey |-> <<>>, CandidatePayloadLens |-> <<p>>])
+  \* single-level bodies around the carries (hi/lo byte arithmetic of the extension header itself)
+  \/ \E n \in Carry :
+       \/ d = D("GenericExtension", [Id |-> 4660, Data |-> XRep(n, SB)])
+       \/ d = D("UtlsGREASEExtension", [Value |-> 2570, Body |-> XRep(n, SB)])
+       \/ d = D("SessionTicketExtension", [Ticket |-> XRep(n, SB), Initialized |-> TRUE])
+       \/ d = [kind |-> "UtlsPaddingExtension", f |-> [PaddingLen |-> n, WillPad |-> TRUE], style |-> "none", padto |-> 0]
+Init == IF Boundary THEN (\E i \in DOMAIN BoundaryDescs : d = BoundaryDescs[i]) \/ CarryInit ELSE SmallInit
 Next == UNCHANGED d
 
 Sizes == <<"L", "L-1", "L/2", "0", "L+3">>
